@@ -191,23 +191,25 @@ def position : E → Cursor
   | .lisp _ c => c
   | _ => none
 
+/-- the last part of `LispError.Is`: `err2, ok := target.(LispError)`, then `e.ErrorValue() == err2.ErrorValue()` -/
+def isTail (err target : E) : Outcome Bool :=
+  match target with
+  | .lisp terr _ => goEq err terr
+  | _ => .ok false
+
 /-- `(e LispError) Is(target error) bool`, on the `err` field of the receiver.
 `target == nil`: `e.ErrorValue() == nil` (a comparison with nil never panics).  Otherwise the payload's own
 `Is` method when it has one (in this universe only a `LispError` payload has), then — for a `LispError` target —
 `e.ErrorValue() == err2.ErrorValue()`, the comparison that panics on two payloads of one uncomparable type. -/
 def lispIs : (err : E) → (target : E) → Outcome Bool
-  | err, target =>
-    if isNil target then .ok (isNil err) else
-    let own : Outcome Bool := match err with
-      | .lisp err' _ => lispIs err' target
-      | _ => .ok false
-    match own with
+  | .lisp err' c, target =>
+    if isNil target then .ok false else
+    match lispIs err' target with
     | .panic => .panic
     | .ok true => .ok true
-    | .ok false =>
-      match target with
-      | .lisp terr _ => goEq err terr
-      | _ => .ok false
+    | .ok false => isTail (.lisp err' c) target
+  | err, target =>
+    if isNil target then .ok (isNil err) else isTail err target
 
 /-- The text `fmt` produces for an interface value: `s = true` under `%s`, `s = false` under `%v` /
 `fmt.Sprint`.  An `error` prints its `Error()` under both verbs:
@@ -293,19 +295,24 @@ def throw (a : E) : Outcome E :=
 link's own `Is` method (`LispError` only), then `Unwrap()` (`LispError`, `*fmt.wrapError`); other links end
 the walk.  Structural recursion on the chain. -/
 def isLoop : (err : E) → (target : E) → Outcome Bool
-  | err, target =>
-    match goEq err target with
+  | .lisp e c, target =>
+    match goEq (.lisp e c) target with
     | .panic => .panic
     | .ok true => .ok true
     | .ok false =>
-      match err with
-      | .lisp e _ =>
-        match lispIs e target with
-        | .panic => .panic
-        | .ok true => .ok true
-        | .ok false => if isErrorValue e then isLoop e target else .ok false
-      | .wrap _ _ inner => if isErrorValue inner then isLoop inner target else .ok false
-      | _ => .ok false
+      match lispIs e target with
+      | .panic => .panic
+      | .ok true => .ok true
+      | .ok false => if isErrorValue e then isLoop e target else .ok false
+  | .wrap id pfx inner, target =>
+    match goEq (.wrap id pfx inner) target with
+    | .panic => .panic
+    | .ok true => .ok true
+    | .ok false => if isErrorValue inner then isLoop inner target else .ok false
+  | err, target =>
+    match goEq err target with
+    | .panic => .panic
+    | .ok b => .ok b
 
 /-- `errors.Is(err, target)` -/
 def errorsIs (err target : E) : Outcome Bool :=
